@@ -137,6 +137,14 @@ pub fn free(seed: u64, runs: usize, dir: &str, maxrecs: usize) {
                 }
             })
             .collect();
+        // one crafted run: k = 17, canonical k-mers that differ only above bit 32 (a truncated key would merge them)
+        let (k, seqs) = if i == 3 {
+            let s16: Vec<u8> = (0..15).map(|_| *rng.pick(b"ACGT")).chain(std::iter::once(b'A')).collect();
+            let mk1 = |p: u8| -> Vec<u8> { std::iter::once(p).chain(s16.iter().copied()).collect() };
+            (17usize, vec![mk1(b'A'), mk1(b'C'), mk1(b'C'), mk1(b'G'), mk1(b'A'), mk1(b'C')])
+        } else {
+            (k, seqs)
+        };
         let cfg = CtrCfg {
             k,
             threads: 1 + rng.below(16) as usize,
